@@ -10,7 +10,7 @@ REPO = os.environ.get('TS_REPO', '/repo')
 VERIF = os.path.dirname(os.path.dirname(os.path.abspath(__file__)))
 if REPO not in sys.path:
     sys.path.insert(0, REPO)
-sys.setrecursionlimit(10000)
+# (the recursion limit is left at CPython's default: deep nesting must behave as it does for an embedder)
 
 import nacl.bindings as nb
 import nacl.exceptions
